@@ -388,4 +388,151 @@ theorem wfLinks_encLinks (E : EncSpecs) (ns : List Name) (hv : ∀ n ∈ ns, Nam
   have := nameLen_le_linksLen ns n hn
   simp [wfName_encNameInner n (hv n hn) (by omega)]
 
+/-! ### Data -/
+
+/-- reduction of `wfData` on a normal-form packet to finite checks on the list of pairs -/
+theorem wfData_of (V : Bytes) (l : List TV) (hV : V = encTVs l) (hlen : V.length < 2 ^ 64)
+    (hok : ∀ p ∈ l, TVok p)
+    (hord : inOrder (l.map (·.1)) [7, 20, 21, 22, 23] = true) (hhead : l.head?.map (·.1) = some 7)
+    (hall : ∀ p ∈ l, (if p.1 = 7 then wfName p.2 else if p.1 = 20 then wfMetaInfo p.2
+        else if p.1 = 22 then wfSigInfo p.2 else true) = true) :
+    wfData (encTL 6 ++ encTL V.length ++ V) = true := by
+  have h1 : encTL 6 ++ encTL V.length ++ V = encTVs [(6, V)] := by simp [encTV]
+  have hok1 : ∀ p ∈ [((6 : Nat), V)], TVok p := by
+    intro p hp; simp only [List.mem_cons, List.not_mem_nil, or_false] at hp; subst hp
+    exact TVok_mk _ _ (by decide) hlen
+  rw [h1]
+  unfold wfData
+  rw [tlvs_encTVs _ hok1]
+  simp only [mkTlvs]
+  rw [hV, tlvs_encTVs _ hok]
+  simp only [map_typ_mkTlvs, head_typ_mkTlvs, hord, hhead, Bool.and_eq_true, decide_eq_true_eq, true_and]
+  refine ⟨by simp, ?_⟩
+  apply all_mkTlvs
+  intro p hp o h
+  exact hall p hp
+
+def dataTVs (d : DataIn) (sv : Bytes) : List TV :=
+  [(7, encNameInner d.name), (20, encMeta d.mi)] ++ optL d.content (fun c => (21, c.flatten))
+    ++ optL d.si (fun s => (22, encSigInfo s)) ++ (if d.est > 0 then [(23, sv)] else [])
+
+theorem contentLen_eq (c : List Bytes) : contentLen c = c.flatten.length := by
+  simp [contentLen, List.length_flatten]
+
+theorem dataValue_eq (E : EncSpecs) (d : DataIn) (sv : Bytes) : dataValue d sv = encTVs (dataTVs d sv) := by
+  simp only [dataValue, dataTVs, encTVs_append, dataHead]
+  rw [optB_eq_encTVs d.content _ (fun c => (21, c.flatten)) (by intro c; simp [encTV, contentLen_eq]),
+    optB_eq_encTVs d.si _ (fun s => (22, encSigInfo s)) (by intro s; simp [encTV, E.sigInfoLen_eq]),
+    encNameField_eq E]
+  have : encTL 20 ++ encTL (metaLen d.mi) ++ encMeta d.mi = encTV (20, encMeta d.mi) := by
+    simp [encTV, E.metaLen_eq]
+  rw [this]
+  split <;> simp [encTV]
+
+/-- the length facts contained in `DataIn.Valid` -/
+theorem data_bounds (d : DataIn) (sv : Bytes) (hv : d.Valid) (hsv : sv.length ≤ d.est) :
+    nameLen d.name < 2 ^ 62 ∧ metaLen d.mi < 2 ^ 62
+    ∧ (∀ c, d.content = some c → contentLen c < 2 ^ 62)
+    ∧ (∀ s, d.si = some s → sigInfoLen s < 2 ^ 62)
+    ∧ (d.est > 0 → sv.length < 2 ^ 62) := by
+  have h := hv.2.2.2
+  simp only [dataLen, nameFieldLen] at h
+  refine ⟨by omega, by omega, ?_, ?_, ?_⟩
+  · intro c hc; simp only [hc, optN] at h; omega
+  · intro s hs; simp only [hs, optN] at h; omega
+  · intro he; simp only [sigTLLen, he, if_true] at h; omega
+
+theorem dataTVs_ok (E : EncSpecs) (d : DataIn) (sv : Bytes) (hv : d.Valid) (hsv : sv.length ≤ d.est) :
+    ∀ p ∈ dataTVs d sv, TVok p := by
+  obtain ⟨b1, b2, b3, b4, b5⟩ := data_bounds d sv hv hsv
+  intro p hp
+  simp only [dataTVs, List.mem_append, mem_optL, List.mem_cons, List.not_mem_nil, or_false] at hp
+  rcases hp with (((rfl | rfl) | ⟨c, hc, rfl⟩) | ⟨s, hs, rfl⟩) | hp
+  · exact TVok_mk _ _ (by decide) (by rw [E.nameLen_eq]; omega)
+  · exact TVok_mk _ _ (by decide) (by rw [E.metaLen_eq]; omega)
+  · have := b3 c hc
+    exact TVok_mk _ _ (by decide) (by rw [← contentLen_eq]; omega)
+  · have := b4 s hs
+    exact TVok_mk _ _ (by decide) (by rw [E.sigInfoLen_eq]; omega)
+  · split at hp
+    · rename_i he
+      simp only [List.mem_cons, List.not_mem_nil, or_false] at hp; subst hp
+      have := b5 he
+      exact TVok_mk _ _ (by decide) (by omega)
+    · simp at hp
+
+theorem encTVs_length_le (l : List TV) : (encTVs l).length ≤ (l.map (fun p => 18 + p.2.length)).sum := by
+  induction l with
+  | nil => simp
+  | cons p l ih =>
+    have := tlLen_le p.1
+    have := tlLen_le p.2.length
+    simp only [encTVs_cons, List.length_append, encTV_length, List.map_cons, List.sum_cons]
+    omega
+
+theorem sum_optL_le {α : Type} (o : Option α) (f : α → TV) (g : α → Nat)
+    (h : ∀ a, (f a).2.length = g a) :
+    ((optL o f).map (fun p => 18 + p.2.length)).sum ≤ 18 + optN o g := by
+  cases o with
+  | none => simp [optL]
+  | some a => have := h a; simp [optL, optN]; omega
+
+theorem optN_mono {α : Type} (o : Option α) (f g : α → Nat) (h : ∀ a, f a ≤ g a) : optN o f ≤ optN o g := by
+  cases o with
+  | none => simp [optN]
+  | some a => exact h a
+
+theorem data_total (d : DataIn) (sv : Bytes) (hv : d.Valid) (hsv : sv.length ≤ d.est) :
+    nameLen d.name + metaLen d.mi + optN d.content contentLen + optN d.si sigInfoLen
+      + (if d.est > 0 then sv.length else 0) + 16 < 2 ^ 62 := by
+  have h := hv.2.2.2
+  simp only [dataLen, nameFieldLen] at h
+  have h3 := optN_mono d.content contentLen (fun c => 1 + tlLen (contentLen c) + contentLen c) (by intro c; omega)
+  have h4 := optN_mono d.si sigInfoLen (fun s => 1 + tlLen (sigInfoLen s) + sigInfoLen s) (by intro c; omega)
+  have h5 : (if d.est > 0 then sv.length else 0) ≤ sigTLLen 23 d.est := by
+    unfold sigTLLen; split <;> omega
+  omega
+
+theorem dataValue_length_lt (E : EncSpecs) (d : DataIn) (sv : Bytes) (hv : d.Valid) (hsv : sv.length ≤ d.est) :
+    (dataValue d sv).length < 2 ^ 64 := by
+  have ht := data_total d sv hv hsv
+  have h := encTVs_length_le (dataTVs d sv)
+  rw [← dataValue_eq E] at h
+  have h3 := sum_optL_le d.content (fun c => (21, c.flatten)) contentLen (by intro c; simp [contentLen_eq])
+  have h4 := sum_optL_le d.si (fun s => (22, encSigInfo s)) sigInfoLen (by intro s; simp [E.sigInfoLen_eq])
+  by_cases he : d.est > 0
+  · simp only [dataTVs, he, if_true, List.map_append, List.sum_append, List.map_cons, List.map_nil, List.sum_cons,
+      List.sum_nil, E.nameLen_eq, E.metaLen_eq] at h ht
+    omega
+  · simp only [dataTVs, he, if_false, List.map_append, List.sum_append, List.map_cons, List.map_nil, List.sum_cons,
+      List.sum_nil, E.nameLen_eq, E.metaLen_eq] at h ht
+    omega
+
+/-- every Data value in normal form is well-formed -/
+theorem wfData_normal (E : EncSpecs) (d : DataIn) (sv : Bytes) (hv : d.Valid) (hsv : sv.length ≤ d.est) :
+    Spec.wfData (encTL 6 ++ encTL (dataValue d sv).length ++ dataValue d sv) = true := by
+  obtain ⟨b1, b2, b3, b4, b5⟩ := data_bounds d sv hv hsv
+  apply wfData_of _ (dataTVs d sv) (dataValue_eq E d sv) (dataValue_length_lt E d sv hv hsv)
+    (dataTVs_ok E d sv hv hsv)
+  · apply inOrder_of_sublist
+    simp only [dataTVs, List.map_append, List.map_cons, List.map_nil]
+    have e : [7, 20, 21, 22, 23] = [7, 20] ++ [21] ++ [22] ++ [23] := rfl
+    rw [e]
+    refine List.Sublist.append (List.Sublist.append (List.Sublist.append (List.Sublist.refl _) ?_) ?_) ?_
+    · cases d.content <;> simp [optL]
+    · cases d.si <;> simp [optL]
+    · split <;> simp
+  · simp [dataTVs]
+  · intro p hp
+    simp only [dataTVs, List.mem_append, mem_optL, List.mem_cons, List.not_mem_nil, or_false] at hp
+    rcases hp with (((rfl | rfl) | ⟨c, hc, rfl⟩) | ⟨s, hs, rfl⟩) | hp
+    · simp [wfName_encNameInner d.name hv.1 (by omega)]
+    · simp [wfMetaInfo_encMeta d.mi (by omega)]
+    · simp
+    · have := b4 s hs
+      simp [wfSigInfo_encSigInfo E s (hv.2.2.1 s hs) (by omega)]
+    · split at hp
+      · simp only [List.mem_cons, List.not_mem_nil, or_false] at hp; subst hp; simp
+      · simp at hp
+
 end Ndn.C03
